@@ -148,7 +148,16 @@ func genCase(t *rapid.T) Case {
 		c.Ops = append(c.Ops, Op{K: "campaign", I: i, TTL: ttl()}, Op{K: "write", I: i, W: "tso-init"})
 	}
 	for len(c.Ops) < nops {
-		switch k := rapid.IntRange(0, 34).Draw(t, "kind"); {
+		switch k := rapid.IntRange(0, 37).Draw(t, "kind"); {
+		case k >= 35:
+			// a guarded write delayed in flight across a change of term of the same member value
+			if rapid.IntRange(0, 2).Draw(t, "dwcamp") != 0 {
+				c.Ops = append(c.Ops, Op{K: "campaign", I: who("i"), TTL: ttl()}, Op{K: "write", Rel: "cur", I: who("ii"), W: "tso-init"})
+			}
+			c.Ops = append(c.Ops, Op{K: "dwrite", Rel: "cur", I: who("i"),
+				W:   rapid.SampledFrom([]string{"txn", "txncmp", "prio-set", "prio-del", "dcloc-del", "tso-update", "tso-update", "enc"}).Draw(t, "dw"),
+				How: rapid.SampledFrom([]string{"reset", "reset", "lexp"}).Draw(t, "dhow"),
+				N:   rapid.IntRange(0, 3).Draw(t, "dorder"), T: rapid.IntRange(0, 5).Draw(t, "dvariant")})
 		case k >= 33:
 			// a TSO request that has to wait across the holder's local lease deadline
 			if rapid.Bool().Draw(t, "waitinit") {
@@ -468,7 +477,16 @@ type world struct {
 	nonOwnerAttempts int
 	step             int
 	allocKey         string
+	hold             atomic.Pointer[holdT]
 	idErr            error // first violation of clause (5)
+}
+
+// holdT parks the first write transaction that goroutine g sends through slot.
+type holdT struct {
+	slot    int
+	g       atomic.Uint64
+	parked  chan struct{}
+	release chan struct{}
 }
 
 var errRejected = errors.New("guarded txn not succeeded")
@@ -484,6 +502,11 @@ func (w *world) install() {
 			}
 			if ev.Method == "LeaseGrant" {
 				w.clock.advance(si, grantLatency)
+			}
+			if h := w.hold.Load(); h != nil && h.slot == si && ev.Method == "Txn" && ev.Write && goid() == h.g.Load() {
+				// a guarded write delayed in flight: assembled, not yet at etcd
+				close(h.parked)
+				<-h.release
 			}
 			w.mu.Lock()
 			fk := w.fault[si]
@@ -1377,6 +1400,205 @@ func (w *world) doTSOWait(c *cont, op Op) error {
 	return nil
 }
 
+// doDelayedWrite: a guarded write of the holder that is delayed in flight across a change of term.
+// The writer holds the record on lease L (it passes its own leadership check); it loses the lease
+// (Leadership.Reset() from another goroutine, or local expiry) either BEFORE it assembles the
+// transaction or while the assembled transaction is already in flight; the transaction is parked just
+// before it reaches etcd; meanwhile the record is released and the SAME member value is elected again
+// on a new lease (the same object campaigns again, optionally after another contender led, or a second
+// incarnation publishes the same value); then the transaction is let through.
+// Oracle (clause 3, revision-exact owner = the campaign whose lease the writer held): if at the moment
+// of arrival the record is not (value of the writer, lease L) the write is rejected: nothing under the
+// root changes and the writer gets an error.
+func (w *world) doDelayedWrite(c *cont, op Op) error {
+	w.clock.set(c.idx)
+	r0, ok0 := w.record()
+	if !w.modelValid(c) || !ok0 || r0.V != c.value || r0.Lease != c.lease || c.lease == 0 || !c.ls.Check() {
+		w.info.Class("dwrite-not-applicable")
+		return nil
+	}
+	heldLease := c.lease
+	loseFirst := op.N%2 == 0
+	kind := op.W
+	switch {
+	case w.c.Domain == "dc" && kind != "txn" && kind != "txncmp" && kind != "tso-update":
+		kind = "txn"
+	case kind == "tso-update" && (!c.ta.IsInitialize() || (loseFirst && op.How != "lexp")):
+		kind = "txn"
+	case kind == "enc" && loseFirst:
+		kind = "txncmp" // rotateKeyIfNeeded checks the lease itself right before it assembles the save
+	}
+	if kind == "dcloc-del" {
+		t := w.cs[((op.T%len(w.cs))+len(w.cs))%len(w.cs)]
+		w.f.PutRaw(t.m.GetDCLocationPath(t.id), "dc-1")
+	}
+	if kind == "tso-update" && !loseFirst {
+		if w.clock.offset(c.idx)+saveInterval+time.Millisecond > c.expire {
+			kind = "txn"
+		} else {
+			w.clock.advance(c.idx, saveInterval+time.Millisecond)
+		}
+	}
+	lose := func() {
+		if op.How == "lexp" {
+			w.clock.atLeast(c.idx, c.expire+time.Nanosecond)
+			return
+		}
+		c.ls.Reset() // ResetAllocatorGroup / a step-down running on another goroutine
+	}
+	if loseFirst {
+		lose()
+	}
+	w.takeEvents()
+	h := &holdT{slot: c.idx, parked: make(chan struct{}), release: make(chan struct{})}
+	done := make(chan struct{})
+	var werr error
+	ran := false
+	wop := Op{W: kind, N: op.N, T: op.T}
+	go func() {
+		defer close(done)
+		defer w.clock.bind(c.idx)()
+		h.g.Store(goid())
+		w.hold.Store(h)
+		if kind == "tso-update" {
+			// the updater passed its own Check() a moment ago
+			werr, ran = c.ta.UpdateTSO(), true
+			return
+		}
+		werr, ran = w.writeCall(c, wop)
+	}()
+	released := false
+	letGo := func() {
+		if !released {
+			released = true
+			w.hold.Store(nil)
+			close(h.release)
+		}
+	}
+	defer letGo()
+	select {
+	case <-h.parked:
+	case <-done:
+		w.hold.Store(nil)
+		w.takeEvents()
+		w.info.Class("dwrite-nothing-sent:" + kind)
+		if !loseFirst {
+			lose()
+		}
+		if op.How != "lexp" {
+			c.held, c.granted, c.noLease = false, false, false
+		}
+		return nil
+	case <-time.After(5 * time.Second):
+		w.info.Inconclusive = true
+		return nil
+	}
+	w.hold.Store(nil) // only this one transaction is delayed
+	if !loseFirst {
+		lose()
+	}
+	if op.How != "lexp" {
+		c.held, c.granted, c.noLease = false, false, false
+	} else {
+		w.revokeRaw(heldLease) // the etcd side of the expiry
+	}
+	// the term changes while the write is in flight
+	variant := op.T % 3
+	if variant == 1 && len(w.cs) > 1 {
+		o := w.cs[(c.idx+1)%len(w.cs)]
+		if err := w.doCampaign(o, 400, ""); err != nil {
+			return err
+		}
+		if o.held {
+			if err := w.doWrite(o, Op{K: "write", W: "txn", N: op.N + 1}); err != nil {
+				return err
+			}
+		}
+		if err := w.doResign(o, ""); err != nil {
+			return err
+		}
+	}
+	if w.info.Inconclusive {
+		return nil
+	}
+	if variant == 2 {
+		// a restarted incarnation of the member (same name, id, urls) wins the election
+		w.clean = false
+		ctx, cancel := context.WithTimeout(context.Background(), 10*time.Second)
+		g, err := w.f.Raw.Grant(ctx, 600)
+		if err == nil {
+			w.mu.Lock()
+			w.leases = append(w.leases, int64(g.ID))
+			w.mu.Unlock()
+			_, err = w.f.Raw.Txn(ctx).If(clientv3.Compare(clientv3.CreateRevision(w.leaderKey), "=", 0)).
+				Then(clientv3.OpPut(w.leaderKey, c.value, clientv3.WithLease(g.ID))).Commit()
+		}
+		cancel()
+		if err != nil {
+			w.info.Inconclusive = true
+			return nil
+		}
+	} else if err := w.doCampaign(c, 600, ""); err != nil {
+		return err
+	}
+	if w.info.Inconclusive {
+		return nil
+	}
+	w.clock.set(c.idx)
+	pre, err := w.snap()
+	if err != nil {
+		w.info.Inconclusive = true
+		return nil
+	}
+	w.takeEvents()
+	letGo()
+	select {
+	case <-done:
+	case <-time.After(15 * time.Second):
+		w.info.Inconclusive = true
+		return nil
+	}
+	evs := w.takeEvents()
+	post, err := w.snap()
+	if err != nil || envFailure(evs) {
+		w.info.Inconclusive = true
+		return nil
+	}
+	if w.idErr != nil {
+		return w.idErr
+	}
+	_ = ran
+	lr, lrOK := pre[w.leaderKey]
+	order := "assembled after the lease was lost"
+	if !loseFirst {
+		order = "assembled before the lease was lost"
+	}
+	how := map[bool]string{true: "local expiry + revoke", false: "Reset()"}[op.How == "lexp"]
+	what := fmt.Sprintf("guarded write %q of %s, %s (%s), delayed in flight until the record was re-acquired (variant %d)", kind, c.name, order, how, variant)
+	if lrOK && lr.V == c.value && lr.Lease == heldLease {
+		w.info.Class("dwrite-still-owner")
+		return nil
+	}
+	applied := false
+	for _, e := range evs {
+		if e.slot == c.idx && e.method == "Txn" && e.write && e.applied {
+			applied = true
+		}
+	}
+	state := fmt.Sprintf("the record at arrival is (present %v, value of %s, on the lease the writer held: false)", lrOK, w.nameOf(lr.V))
+	if d := diffSnap(pre, post); d != "" {
+		return fmt.Errorf("%s: %s, yet stored state changed: %s", what, state, strings.ReplaceAll(d, w.root, ""))
+	}
+	if applied || werr == nil {
+		return fmt.Errorf("%s: %s, yet the transaction was applied (%v) / reported success (%v)", what, state, applied, werr == nil)
+	}
+	w.nonOwnerAttempts++
+	w.info.Class("dwrite-rejected:" + kind)
+	w.info.Class("dwrite-rejected-order:" + order)
+	w.info.ClassIf(lrOK && lr.V == c.value, "dwrite-rejected-same-value-new-lease")
+	return nil
+}
+
 func (w *world) whyInvalid(c *cont) string {
 	switch {
 	case !c.campaigned:
@@ -1811,6 +2033,8 @@ func runCase(c Case) (info vkit.Info, rerr error) {
 			err = w.doTSO(w.resolve(op))
 		case "tsowait":
 			err = w.doTSOWait(w.resolve(op), op)
+		case "dwrite":
+			err = w.doDelayedWrite(w.resolve(op), op)
 		case "checkleader":
 			err = w.doCheckLeader(w.resolve(op))
 		case "dcput":
